@@ -6,9 +6,12 @@ import (
 	"bytes"
 	"context"
 	"encoding/json"
+	"errors"
 	"fmt"
 	"io"
 	"strings"
+	"sync/atomic"
+	"time"
 
 	"go4.org/rollsum"
 	"perkeep.org/pkg/blob"
@@ -360,6 +363,38 @@ func runC15(c *ctx) {
 	for i := 0; i < c.n(6, 60); i++ {
 		wcases = append(wcases, wcase{c.rng.Intn(700000), []string{"random", "zeros", "mixed"}[c.rng.Intn(3)], []string{"whole", "together", "short", "onebyte"}[c.rng.Intn(4)]})
 	}
+	// a store that refuses one chosen blob (at once, or after a delay): the writer either reports an error or everything the
+	// file schema references has been stored
+	for fi := 0; fi < c.n(8, 40); fi++ {
+		size := []int{300000, 262144 + 40960, 700000, 90000}[fi%4]
+		data := mkData(size, "random")
+		// which blobs does a fault-free write produce?
+		ref0 := &memory.Storage{}
+		if _, err := schema.WriteFileFromReader(ctxb, ref0, "f.bin", bytes.NewReader(data)); err != nil {
+			continue
+		}
+		var all []blob.SizedRef
+		blobserver.EnumerateAll(ctxb, ref0, func(sb blob.SizedRef) error { all = append(all, sb); return nil })
+		for _, which := range []int{0, len(all) - 1, c.rng.Intn(len(all))} {
+			for _, delay := range []time.Duration{0, 20 * time.Millisecond} {
+				rs := &c15refuser{Storage: &memory.Storage{}, refuse: all[which].Ref, delay: delay}
+				fref, err := schema.WriteFileFromReader(ctxb, rs, "f.bin", bytes.NewReader(data))
+				c.rep.SpecChecks++
+				c.count("write with a refusing store", map[bool]string{true: "error reported", false: "no error"}[err != nil])
+				if err != nil || !rs.refused.Load() {
+					continue
+				}
+				desc := fmt.Sprintf("%d bytes, the store refused blob %d of %d (%d bytes) after %v and the write returned no error", size, which, len(all), all[which].Size, delay)
+				fr, rerr := schema.NewFileReader(ctxb, rs.Storage, fref)
+				if rerr == nil {
+					_, rerr = io.ReadAll(fr)
+				}
+				if rerr != nil {
+					c.violation(-1, "c15-write-missing-blob", desc+": the file does not read back: "+rerr.Error(), nil)
+				}
+			}
+		}
+	}
 	for _, wc := range wcases {
 		data := mkData(wc.n, wc.kind)
 		if wc.mode == "onebyte" && wc.n > 400000 {
@@ -510,4 +545,22 @@ func runC15(c *ctx) {
 		}
 		schema.VerifSetMaxStaticSetMembers(old)
 	}
+}
+
+// a store that refuses one blob
+type c15refuser struct {
+	*memory.Storage
+	refuse  blob.Ref
+	delay   time.Duration
+	refused atomic.Bool
+}
+
+func (r *c15refuser) ReceiveBlob(ctx context.Context, br blob.Ref, src io.Reader) (blob.SizedRef, error) {
+	if br == r.refuse {
+		io.Copy(io.Discard, src)
+		time.Sleep(r.delay)
+		r.refused.Store(true)
+		return blob.SizedRef{}, errors.New("verif: this blob is refused")
+	}
+	return r.Storage.ReceiveBlob(ctx, br, src)
 }
